@@ -7,8 +7,10 @@
 \* A plan is valid iff this specification can consume its statements one after the other and ends in the wanted catalogue.
 EXTENDS Naturals, Sequences, FiniteSets, TLC
 CONSTANTS Tables          \* universe of table names
+Defs == {"", "ON DELETE CASCADE"}   \* definitions explored by Next (the trace specification takes them from the statements)
 VARIABLES tables,         \* existing tables
-          fks,            \* live foreign keys: set of <<child, parent, name>>
+          fks,            \* live foreign keys: set of <<child, parent, name, def>>; def = the rest of the definition as the
+                          \* statement spells it (ON UPDATE / ON DELETE actions), "" when the statement gives none
           created, dropped, \* how often each table was created / dropped by the plan so far
           checks          \* live CHECK constraints: set of <<table, id>> (id = constraint name, or "unnamed:<expr>")
 cvars == <<tables, fks, created, dropped, checks>>
@@ -21,16 +23,18 @@ Init == \E T \in SUBSET Tables : Start(T, {})
 CreateTable(t, inline) ==
   /\ t \notin tables
   /\ \A k \in inline : k[1] = t /\ (k[2] \in tables \/ k[2] = t)
+  /\ \A j, k \in inline : j[3] = k[3] => j = k
   /\ tables' = tables \cup {t} /\ fks' = fks \cup inline
   /\ created' = [created EXCEPT ![t] = @ + 1] /\ UNCHANGED <<dropped, checks>>
 \* ALTER TABLE t ADD [CONSTRAINT n] CHECK (e)
 AddCheck(t, id) == /\ t \in tables /\ <<t, id>> \notin checks /\ checks' = checks \cup {<<t, id>>} /\ UNCHANGED <<tables, fks, created, dropped>>
 \* ALTER TABLE t DROP CONSTRAINT n   (only a NAMED check can be dropped by a statement)
 DropCheck(t, id) == /\ <<t, id>> \in checks /\ checks' = checks \ {<<t, id>>} /\ UNCHANGED <<tables, fks, created, dropped>>
-\* ALTER TABLE t ADD CONSTRAINT n FOREIGN KEY .. REFERENCES p
-AddFK(t, p, n) ==
-  /\ t \in tables /\ p \in tables /\ <<t, p, n>> \notin fks
-  /\ fks' = fks \cup {<<t, p, n>>} /\ UNCHANGED <<tables, created, dropped, checks>>
+\* ALTER TABLE t ADD CONSTRAINT n FOREIGN KEY .. REFERENCES p [ON UPDATE ..] [ON DELETE ..]
+\* (a constraint name is taken at most once per table: modifying a foreign key is a drop followed by an add)
+AddFK(t, p, n, d) ==
+  /\ t \in tables /\ p \in tables /\ ~(\E k \in fks : k[1] = t /\ k[3] = n)
+  /\ fks' = fks \cup {<<t, p, n, d>>} /\ UNCHANGED <<tables, created, dropped, checks>>
 \* ALTER TABLE t DROP FOREIGN KEY / CONSTRAINT n
 DropFK(t, n) ==
   /\ \E k \in fks : k[1] = t /\ k[3] = n
@@ -42,15 +46,20 @@ DropTable(t) ==
   /\ tables' = tables \ {t} /\ fks' = {k \in fks : k[1] # t}
   /\ checks' = {k \in checks : k[1] # t}
   /\ dropped' = [dropped EXCEPT ![t] = @ + 1] /\ UNCHANGED created
+\* ALTER TABLE t ADD [UNIQUE] INDEX n (parts) / CREATE INDEX n ON t (parts): an index has at least one key part (indexes themselves
+\* are not part of the catalogue)
+AddIndex(t, k) == t \in tables /\ k > 0 /\ UNCHANGED cvars
 \* any other statement on an existing table
 Other(t) == t \in tables /\ UNCHANGED cvars
 
-Next == \/ \E t \in Tables : \E P \in SUBSET Tables : CreateTable(t, { <<t, p, "fk">> : p \in P })
-        \/ \E t, p \in Tables : AddFK(t, p, "fk2")
-        \/ \E t \in Tables, n \in {"fk", "fk2"} : DropFK(t, n)
+Next == \/ \E t \in Tables : \E P \in SUBSET Tables : CreateTable(t, { <<t, p, "fk_" \o p, "">> : p \in P })
+        \/ \E t, p \in Tables, d \in Defs : AddFK(t, p, "fk2", d)
+        \/ \E t \in Tables, n \in {"fk2"} \cup {"fk_" \o p : p \in Tables} : DropFK(t, n)
         \/ \E t \in Tables : DropTable(t)
 Spec == Init /\ [][Next]_cvars
 
+\* one constraint name per table
+FKNamesUnique == \A j, k \in fks : (j[1] = k[1] /\ j[3] = k[3]) => j = k
 \* ---- properties (C04) ----------------------------------------------------------------------------------
 FKTargetsExist == \A k \in fks : k[1] \in tables /\ k[2] \in tables
 Once == \A t \in Tables : created[t] <= 1 /\ dropped[t] <= 1
